@@ -176,6 +176,7 @@ func c04BuildGen2(c *Ctx) {
 			harnessFail("gen2: %v", err)
 		}
 	}
+	instrumentLibs(filepath.Join(dir, "pkg"))
 	instrumentDir(filepath.Join(dir, "fc"), true)
 	c04Gen2Fc = filepath.Join(c.B.Dir, "bin", "fc.gen2.verif")
 	c.B.goBuild(filepath.Join(dir, "fc"), c04Gen2Fc, true)
@@ -485,6 +486,8 @@ func checkC04(tier string) {
 			"schedules_per_sample":                  sampleM + 1,
 			"schedules_generation2":                 gen2M + 1,
 			"fault_kinds_injected":                  "none (a fault legitimately changes the result; the fault-free configuration is the property)",
+			"real_directory_leg":                    "the shipped fc runs the self-build twice on a real directory: into a tree without outputs (must equal the simulated identity run: seam fidelity) and over a tree whose 12 outputs are present, torn / hand-edited / old, and newer than the sources (every one must come out as into an empty tree)",
+			"grouped_invocations":                   "all listed samples in one fc invocation (under schedules) and random sub-lists; a grouped invocation fc rejects is skipped",
 			"exhaustive":                            false,
 		},
 		[]string{"gofmt is the toolchain's binary", "samples/gen_*.go without an entry in samples/filelist.txt are outside the statement"},
